@@ -1013,3 +1013,110 @@ def key_spellings(ctx, d):
             ctx.violate("unregistered:not-rejected", f"transform(({s_!r}, {d_!r})) returned {got!r}; only {a}->{b} is registered")
         elif not isinstance(got, (KeyError, ValueError)):
             ctx.violate("unregistered:wrong-exception", f"transform(({s_!r}, {d_!r})) raised {type(got).__name__}: {got}")
+
+
+# ------------------------------------------------------------------------------------------------
+# registry histories: set / replace / delete interleaved with queries, compared with a plain dict model
+# (added after a seeded change cached computed inverses inside the registry: correct until a matrix is replaced)
+# ------------------------------------------------------------------------------------------------
+
+_HIST_FRAMES = ["BASE_LINK", "MAP", "LIDAR_TOP", "CAM_FRONT"]
+
+
+@st.composite
+def _registry_histories(draw, tier="quick"):
+    nf = draw(st.integers(2, 4))
+    frames = _HIST_FRAMES[:nf]
+    ops = []
+
+    def mk_set(i, j):
+        ax = [draw(st.sampled_from([0.0, 1.0, -1.0, 0.5])) for _ in range(3)]
+        if ax == [0.0, 0.0, 0.0]:
+            ax = [0.0, 0.0, 1.0]
+        return {"op": "set", "src": i, "dst": j, "t": [draw(st.sampled_from([0.0, 1.5, -20.0, 1e3, -3e4])) for _ in range(3)], "axis": ax, "angle": draw(st.sampled_from([0.0, 0.3, -1.2, 2.9, math.pi]))}
+
+    def mk_query(i, j):
+        return {"op": "query", "src": i, "dst": j, "p": [draw(st.sampled_from([0.0, 1.0, -7.5, 40.0])) for _ in range(3)], "enum_key": draw(st.booleans())}
+
+    if draw(st.booleans()):
+        # by construction: register a->b, ask b->a (inverse fallback), replace a->b (an ego pose update), ask b->a again
+        a_, b_ = draw(st.permutations(list(range(nf))))[:2]
+        ops += [mk_set(a_, b_), mk_query(b_, a_)]
+        if draw(st.booleans()):
+            ops.append(mk_query(a_, b_))
+        ops += [mk_set(a_, b_), mk_query(b_, a_), mk_query(a_, b_)]
+    n_ops = draw(st.integers(3, 14 if tier == "quick" else 30))
+    for _ in range(n_ops):
+        kind = draw(st.sampled_from(["set", "set", "query", "query", "query", "del"]))
+        i, j = draw(st.integers(0, nf - 1)), draw(st.integers(0, nf - 1))
+        if kind == "set":
+            if i == j:
+                continue
+            ax = [draw(st.sampled_from([0.0, 1.0, -1.0, 0.5])) for _ in range(3)]
+            if ax == [0.0, 0.0, 0.0]:
+                ax = [0.0, 0.0, 1.0]
+            ops.append({"op": "set", "src": i, "dst": j, "t": [draw(st.sampled_from([0.0, 1.5, -20.0, 1e3, -3e4])) for _ in range(3)], "axis": ax, "angle": draw(st.sampled_from([0.0, 0.3, -1.2, 2.9, math.pi]))})
+        elif kind == "del":
+            ops.append({"op": "del", "src": i, "dst": j})
+        else:
+            ops.append({"op": "query", "src": i, "dst": j, "p": [draw(st.sampled_from([0.0, 1.0, -7.5, 40.0])) for _ in range(3)], "enum_key": draw(st.booleans())})
+    return {"frames": frames, "ops": ops}
+
+
+@CHECK.given("registry_histories", lambda tier: _registry_histories(tier), quick=400, thorough=40000)
+def registry_histories(ctx, d):
+    np, _, FrameID, HomogeneousMatrix, TransformDict, TransformKey = _lib()
+    frames = d["frames"]
+    td = None
+    with ctx.under_test("TransformDict()"):
+        td = TransformDict()
+    if td is None:
+        return
+    model = {}
+    replaced = False
+    queried_inverse = set()
+    nt = False
+    for op in d["ops"]:
+        s, t = frames[op["src"]], frames[op["dst"]]
+        if op["op"] == "set":
+            tf = (tuple(op["t"]), G.q_from_axis_angle(op["axis"], op["angle"]))
+            with ctx.under_test("TransformDict.__setitem__"):
+                td[(FrameID[s], FrameID[t])] = HomogeneousMatrix(tf[0], tf[1], src=FrameID[s], dst=FrameID[t])
+            if (s, t) in model and (t, s) in queried_inverse:
+                replaced = True
+            model[(s, t)] = tf
+        elif op["op"] == "del":
+            if (s, t) in model:
+                with ctx.under_test("TransformDict.__delitem__"):
+                    del td[(FrameID[s], FrameID[t])]
+                del model[(s, t)]
+        else:
+            p = tuple(op["p"])
+            key = (FrameID[s], FrameID[t]) if op["enum_key"] else (FrameID[s].value, FrameID[t].value)
+            kind, got = _outcome(lambda: td.transform(key, p))
+            if s == t:
+                exp = p
+            elif (s, t) in model:
+                exp = G.tf_apply(model[(s, t)], p)
+            elif (t, s) in model:
+                exp = G.tf_apply(G.tf_inv(model[(t, s)]), p)
+                queried_inverse.add((s, t))
+            else:
+                exp = None
+            if exp is None:
+                ctx.require(kind == "exc" and isinstance(got, (KeyError, ValueError)), "history:unregistered-answered", lambda: f"query {s}->{t} with neither direction registered returned {got!r}")
+                continue
+            if kind == "exc":
+                ctx.violate(f"history:query-raised:{type(got).__name__}", f"query {s}->{t} raised {type(got).__name__}: {got} although {'the direct' if (s, t) in model else 'the reverse'} transform is registered")
+                continue
+            v = _vec3(ctx, got, "history:query")
+            if v is None:
+                continue
+            scale = 1.0 + sum(abs(c) for c in exp) + sum(abs(c) for c in p)
+            ok = all(abs(a - b) <= 1e-9 * scale * 10 for a, b in zip(v, exp))
+            if replaced:
+                nt = True
+            ctx.require(ok, "history:stale-or-wrong-answer", lambda: f"after the history so far, query {s}->{t} of {p} gave {v}, the registered matrices give {exp}")
+    ctx.mark_nontrivial(nt)
+    if replaced:
+        ctx.cls("matrix_replaced_after_inverse_query")
